@@ -403,6 +403,12 @@ def check_case(ctx, tools, case, tag="i"):
     rc, out, err = run_interpolate(ctx, tools, prefixes, case["weights"], tag, mem)
     orders = [c["order"] for c in comps]
     res = {"status": "ok", "orders": orders, "comps": comps, "weights": weights, "rc": rc, "mem": mem}
+    words = sorted(set().union(*[set(c["vocab"]) for c in comps]) - {b"<unk>"})
+    ids = {b"<unk>": 0}
+    for i, w in enumerate(words):
+        ids[w] = i + 1
+    res["ids"] = ids
+    res["model_line"] = model_line(comps, weights, ids)
     if rc == 0 and case.get("mem2"):
         # the same inputs under a second memory / block-size setting: same bytes, or at least the same verdict
         rc2, out2, err2 = run_interpolate(ctx, tools, prefixes, case["weights"], tag, tuple(case["mem2"]))
@@ -416,12 +422,6 @@ def check_case(ctx, tools, case, tag="i"):
             if bad2:
                 res.update(status="fail", sig="interpolate:" + bad2[0], msg="with -S %s --sort_block %s: %s" % (case["mem2"][0], case["mem2"][1], bad2[1]))
                 return res
-    words = sorted(set().union(*[set(c["vocab"]) for c in comps]) - {b"<unk>"})
-    ids = {b"<unk>": 0}
-    for i, w in enumerate(words):
-        ids[w] = i + 1
-    res["ids"] = ids
-    res["model_line"] = model_line(comps, weights, ids)
     if rc != 0:
         mixed = len(set(orders)) > 1
         res.update(status="fail", sig=(F10_SIG if (mixed and "Streams were not the same size" in err) else "interpolate:exit-status"),
@@ -430,6 +430,14 @@ def check_case(ctx, tools, case, tag="i"):
     parsed = parse_arpa(out)
     res["out"] = parsed
     bad = spec_check(comps, weights, parsed)
+    if not bad and "query" in tools and max(orders) <= 6:
+        # "writes an ARPA model": kenlm's own (strict) reader must accept the file -- header counts, section order, \end\
+        d = os.path.join(ctx.scratch, tag)
+        apath = os.path.join(d, "out.arpa")
+        open(apath, "wb").write(out)
+        rcq, outq, errq = vlib.sh(["timeout", "30", tools["query"], apath], input=b"", timeout=40)
+        if rcq != 0:
+            bad = ("not-loadable", "kenlm's ARPA reader rejects the output (bin/query exits %d): %s" % (rcq, errq.strip().split("\n")[-1][:200]))
     if bad:
         res.update(status="fail", sig="interpolate:" + bad[0], msg=bad[1])
     return res
@@ -512,7 +520,7 @@ def run(ctx):
     pres = strip_axioms_header(vlib.coq_prove("C13"))
     ctx.set_proof(pres)
     rng = ctx.rng
-    tools = {n: vlib.tool(n) for n in ("lmplz", "interpolate")}
+    tools = {n: vlib.tool(n) for n in ("lmplz", "interpolate", "query")}
     impl_v = vlib.compile_driver("c13_driver", DRIVER, libs=("kenlm_interpolate", "kenlm", "kenlm_util"), extra=("-fopenmp", "-DNDEBUG"))
     spec_fail = []
     model_in, model_expect = [], []
@@ -591,7 +599,7 @@ def run(ctx):
             wbi = {v: k for k, v in res["ids"].items()}
             mtable, ok_buggy, ok_fixed = parse_model(ans, wbi)
             res["model_reunify"] = (ok_buggy, ok_fixed)
-            if res["rc"] == 0:
+            if res["rc"] == 0 and "out" in res:
                 # the longest run of records the normaliser rewinds over (successors of one context), per order: model vs the
                 # tool's output; it never exceeds the union vocabulary, and may exceed every component's vocabulary
                 tool_f = []
@@ -606,7 +614,7 @@ def run(ctx):
                                        "model: %s, union vocabulary %d" % (parse_model.last_followers, union_v)))
                 if max(tool_f + [0]) > comp_v:
                     window_over_component += 1
-            if res["rc"] == 0:
+            if res["rc"] == 0 and "out" in res:
                 msg = model_check(mtable, res["out"], max(res["orders"]))
                 if msg:
                     mismatches.append((case, "tool output", msg))
@@ -713,7 +721,7 @@ def replay(ctx, obj):
         print("case:", r["case"], "\nimpl:", o, "\noracle:", msg or "ok")
         return 1 if msg else 0
     if r.get("kind") == "tool":
-        tools = {n: vlib.tool(n) for n in ("lmplz", "interpolate")}
+        tools = {n: vlib.tool(n) for n in ("lmplz", "interpolate", "query")}
         case = undump(r["case"])
         res = check_case(ctx, tools, case)
         if res["status"] == "ok" and len(case["comps"]) == 1 and case["weights"] == [1.0]:
